@@ -417,6 +417,9 @@ func (w *World) verifyFunc(u *Unit, name string) (ex *Exec, err error) {
 			ex.useLemma(st, ln)
 		}
 	}
+	if fs != nil && fs.Terminates {
+		ex.terminationCheck(fs, body, name)
+	}
 	// unlock site names
 	ex.unitBody = body
 	ex.nameUnlockSites(body)
@@ -1523,4 +1526,104 @@ func (ex *Exec) fieldTypeOfSpec(ts *TypeSpec, field string) types.Type {
 		}
 	}
 	return nil
+}
+
+// terminationCheck (clause `terminates`): every activation of the function
+// ends, given that the library functions it calls return.  Decided on the
+// syntax: every loop is a `range` over a slice, array, string, map, integer
+// or one of the finite library iterators (slices.Chunk, maps.Keys, ...), or a
+// `for` loop whose contract clause has a `decreases` measure (then proved by
+// the loop obligations); no goto, no labelled continue to an outer `for`, and
+// no call of the function itself or of a function of this program other than
+// ones that also carry `terminates`.
+func (ex *Exec) terminationCheck(fs *FuncSpec, body ast.Node, name string) {
+	ok := true
+	var why []string
+	bad := func(pos token.Pos, f string, a ...any) {
+		ok = false
+		why = append(why, ex.posStr(pos)+": "+fmt.Sprintf(f, a...))
+	}
+	ord := 0
+	var walk func(n ast.Node, path string)
+	loopPath := func(parent string, k int) string {
+		if parent == "" {
+			return fmt.Sprint(k)
+		}
+		return parent + "." + fmt.Sprint(k)
+	}
+	_ = ord
+	walk = func(n ast.Node, path string) {
+		k := 0
+		ast.Inspect(n, func(x ast.Node) bool {
+			if x == n {
+				return true
+			}
+			switch s := x.(type) {
+			case *ast.RangeStmt:
+				k++
+				p := loopPath(path, k)
+				t := ex.typeOf(s.X)
+				finite := false
+				if t != nil {
+					switch u := t.Underlying().(type) {
+					case *types.Slice, *types.Array, *types.Map:
+						finite = true
+					case *types.Basic:
+						finite = u.Info()&(types.IsString|types.IsInteger) != 0
+					case *types.Pointer:
+						_, finite = u.Elem().Underlying().(*types.Array)
+					case *types.Signature:
+						// range over a function: only the finite library iterators
+						if call, isCall := ast.Unparen(s.X).(*ast.CallExpr); isCall {
+							switch exprText(call.Fun) {
+							case "slices.Chunk", "slices.Values", "slices.All", "maps.Keys", "maps.Values", "maps.All", "strings.SplitSeq", "bytes.SplitSeq":
+								finite = true
+							}
+						}
+					}
+				}
+				if !finite {
+					bad(s.Pos(), "loop %s ranges over something not known to be finite (%s)", p, exprText(s.X))
+				}
+				walk(s.Body, p)
+				return false
+			case *ast.ForStmt:
+				k++
+				p := loopPath(path, k)
+				if ls := fs.Loops[p]; ls == nil || ls.Decr == nil {
+					bad(s.Pos(), "`for` loop %s has no decreases measure", p)
+				}
+				walk(s.Body, p)
+				return false
+			case *ast.BranchStmt:
+				if s.Tok == token.GOTO {
+					bad(s.Pos(), "goto")
+				}
+			case *ast.FuncLit:
+				return true
+			case *ast.CallExpr:
+				var fn *types.Func
+				switch f := ast.Unparen(s.Fun).(type) {
+				case *ast.Ident:
+					fn, _ = ex.Info.Uses[f].(*types.Func)
+				case *ast.SelectorExpr:
+					fn, _ = ex.Info.Uses[f.Sel].(*types.Func)
+				}
+				if fn != nil && fn.Pkg() != nil {
+					if u := ex.W.Units[fn.Pkg().Path()]; u != nil {
+						key := calleeKey(fn)
+						short := key[strings.Index(key, ".")+1:]
+						if cs := u.FSpecs[short]; cs == nil || !cs.Terminates {
+							bad(s.Pos(), "calls %s, which is not known to terminate", key)
+						}
+					}
+				}
+			}
+			return true
+		})
+	}
+	walk(body, "")
+	ex.obligeAST("termination", "every_loop_is_finite_and_nothing_recurs", body.Pos(), ok,
+		name+": "+strings.Join(why, "; "), nil)
+	ex.W.Trusted["termination of "+ex.FName+": library functions called by it return; `range` over a slice, array, string, map, integer or a finite library iterator ends"] = true
 }
